@@ -171,8 +171,10 @@ func (s *stressRun) producer() {
 				if s.abort.Load() {
 					return
 				}
+				p.waiting.Store(true)
 				runtime.Gosched()
 			}
+			p.waiting.Store(false)
 		}
 		c := appendChunk(make([]byte, 0, 16+d.MaxPayload), d.Seed, i, d.MaxPayload)
 		if d.Bounds {
